@@ -11,15 +11,17 @@ set_option linter.unusedVariables false
 namespace LccModel.Writer
 open LccModel.Report
 
-/-- Two writer states with the same content: reports `SameContent`, `active_steps` equal as a mapping. -/
+/-- Two writer states with the same content: reports `SameContent`; `active_steps` equal as a mapping (every thread is bound
+    to the same step reference), the two binding histories being permutations of each other. -/
 structure StEq (w w' : WriterState) : Prop where
   report : SameContent w.report w'.report
   active : ∀ tid, w.active.lookup tid = w'.active.lookup tid
+  perm : w.active.Perm w'.active
 
-theorem StEq.refl (w : WriterState) : StEq w w := ⟨SameContent.refl _, fun _ => rfl⟩
-theorem StEq.symm {w w' : WriterState} (h : StEq w w') : StEq w' w := ⟨h.1.symm, fun t => (h.2 t).symm⟩
+theorem StEq.refl (w : WriterState) : StEq w w := ⟨SameContent.refl _, fun _ => rfl, List.Perm.refl _⟩
+theorem StEq.symm {w w' : WriterState} (h : StEq w w') : StEq w' w := ⟨h.1.symm, fun t => (h.2 t).symm, h.3.symm⟩
 theorem StEq.trans {a b c : WriterState} (h : StEq a b) (h' : StEq b c) : StEq a c :=
-  ⟨h.1.trans h'.1, fun t => (h.2 t).trans (h'.2 t)⟩
+  ⟨h.1.trans h'.1, fun t => (h.2 t).trans (h'.2 t), h.3.trans h'.3⟩
 
 structure Micro where
   read : Option (Nat × StepRef)        -- requires `active_steps[tid]` to be this reference
@@ -151,6 +153,16 @@ theorem lookup_push_push (b₁ b₂ : Option (Nat × StepRef)) (act : List (Nat 
       · have : (tid == t) = false := by simpa using h1
         simp [this]
 
+theorem perm_pushOpt (b : Option (Nat × StepRef)) {act act' : List (Nat × StepRef)} (h : act.Perm act') :
+    (pushOpt b act).Perm (pushOpt b act') := by
+  cases b with
+  | none => exact h
+  | some x => exact h.cons x
+
+theorem perm_push_push (b₁ b₂ : Option (Nat × StepRef)) (act : List (Nat × StepRef)) :
+    (pushOpt b₂ (pushOpt b₁ act)).Perm (pushOpt b₁ (pushOpt b₂ act)) := by
+  cases b₁ <;> cases b₂ <;> simp only [pushOpt] <;> first | exact List.Perm.refl _ | exact List.Perm.swap _ _ _
+
 /-- **independent micro steps commute**: if `m₁` then `m₂` succeeds from `w`, so does `m₂` then `m₁`, and the final states
     have the same content. -/
 theorem Micro.comm {m₁ m₂ : Micro} (hi : m₁.Indep m₂) {w w₁ w₂ : WriterState} (h1 : m₁.Steps w w₁) (h2 : m₂.Steps w₁ w₂) :
@@ -158,7 +170,7 @@ theorem Micro.comm {m₁ m₂ : Micro} (hi : m₁.Indep m₂) {w w₁ w₂ : Wri
   obtain ⟨hr1, ht1, ha1⟩ := h1
   obtain ⟨hr2, ht2, ha2⟩ := h2
   obtain ⟨x', y', h3, h4, h5⟩ := m₁.treeRun_comm m₂ hi.foot _ _ _ ht1 ht2
-  refine ⟨⟨x', pushOpt m₂.push w.active⟩, ⟨y', pushOpt m₁.push (pushOpt m₂.push w.active)⟩, ⟨?_, h3, rfl⟩, ⟨?_, h4, rfl⟩, ?_, ?_⟩
+  refine ⟨⟨x', pushOpt m₂.push w.active⟩, ⟨y', pushOpt m₁.push (pushOpt m₂.push w.active)⟩, ⟨?_, h3, rfl⟩, ⟨?_, h4, rfl⟩, ?_, ?_, ?_⟩
   · intro tid ref hrd
     have := hr2 tid ref hrd
     rw [ha1, lookup_pushOpt_ne _ _ _ (fun t r hp => hi.push_read t r tid ref hp hrd)] at this
@@ -171,14 +183,17 @@ theorem Micro.comm {m₁ m₂ : Micro} (hi : m₁.Indep m₂) {w w₁ w₂ : Wri
   · intro tid
     rw [ha2, ha1]
     exact lookup_push_push _ _ _ hi.push_push tid
+  · rw [ha2, ha1]
+    exact perm_push_push _ _ _
 
 /-- **the same micro step on two states with the same content** (unique sibling names) -/
 theorem Micro.congr (m : Micro) {w w' w₁ : WriterState} (hs : StEq w w') (hu : uniqL w.report.suites) (h : m.Steps w w₁) :
     ∃ w₁', m.Steps w' w₁' ∧ StEq w₁ w₁' := by
   obtain ⟨hr, ht, ha⟩ := h
   obtain ⟨r₁', h1, h2⟩ := m.treeRun_congr hs.report hu ht
-  refine ⟨⟨r₁', pushOpt m.push w'.active⟩, ⟨?_, h1, rfl⟩, h2, ?_⟩
+  refine ⟨⟨r₁', pushOpt m.push w'.active⟩, ⟨?_, h1, rfl⟩, h2, ?_, ?_⟩
   · intro tid ref hrd; rw [← hs.active]; exact hr tid ref hrd
   · intro tid; rw [ha]; exact lookup_pushOpt_congr _ hs.active tid
+  · rw [ha]; exact perm_pushOpt _ hs.perm
 
 end LccModel.Writer
